@@ -97,30 +97,37 @@ def retry_wait_shape(eng):
     budget = retry.params()[2].arg if len(retry.params()) > 2 else "timeout"
     ok = False
     wt = lim = None
+    from sa.analyses.buffers import through_local
+    from sa.norm import cmp_canon
+
+    def smaller_on_true(test, true_v, false_v):
+        """(wait target value names) -> the limit name if `true_v if test else false_v` is min(budget, limit), else None"""
+        c = cmp_canon(retry, through_local(retry, test))
+        a_, b_ = dotted(true_v), dotted(false_v)
+        if c is None or not a_ or not b_ or a_ == b_ or budget not in (a_, b_) or set(k for k in c[0] if k) != {a_, b_} or c[0].get("", 0) != 0:
+            return None
+        minus = next(k for k, v in c[0].items() if k and v < 0)   # test true  <=>  plus - minus > / >= 0  <=>  minus is the smaller one
+        return (a_ if b_ == budget else b_) if a_ == minus else None
+
     for n in own_nodes(retry.node):
-        if isinstance(n, ast.If) and isinstance(n.test, ast.Compare) and isinstance(n.test.ops[0], (ast.LtE, ast.Lt)) and dotted(n.test.left) == budget:
-            lim_ = dotted(n.test.comparators[0])
-            b = [s for s in n.body if isinstance(s, (ast.Assign, ast.AnnAssign)) and dotted(getattr(s, "value", None)) == budget]
-            o = [s for s in n.orelse if isinstance(s, (ast.Assign, ast.AnnAssign)) and dotted(getattr(s, "value", None)) == lim_]
-            if b and o:
-                tb = (b[0].targets[0] if isinstance(b[0], ast.Assign) else b[0].target)
-                to = (o[0].targets[0] if isinstance(o[0], ast.Assign) else o[0].target)
-                if dotted(tb) == dotted(to):
-                    wt, lim = dotted(tb), lim_
-        # wait = <interval> if <budget > interval> else <budget>   (conditional expression, the test possibly held in a local)
+        # if <test>: wait = A  else: wait = B      (either orientation, the test possibly held in a local)
+        if isinstance(n, ast.If) and n.orelse:
+            tb = [s_ for s_ in n.body if isinstance(s_, (ast.Assign, ast.AnnAssign)) and getattr(s_, "value", None) is not None]
+            to_ = [s_ for s_ in n.orelse if isinstance(s_, (ast.Assign, ast.AnnAssign)) and getattr(s_, "value", None) is not None]
+            for x in tb:
+                for y in to_:
+                    tx = x.targets[0] if isinstance(x, ast.Assign) else x.target
+                    ty = y.targets[0] if isinstance(y, ast.Assign) else y.target
+                    if dotted(tx) and dotted(tx) == dotted(ty):
+                        lim_ = smaller_on_true(n.test, x.value, y.value)
+                        if lim_ is not None:
+                            wt, lim = dotted(tx), lim_
+        # wait = A if <test> else B
         if isinstance(n, (ast.Assign, ast.AnnAssign)) and isinstance(getattr(n, "value", None), ast.IfExp):
-            from sa.analyses.buffers import through_local
-            from sa.norm import cmp_canon
-            ie = n.value
-            c = cmp_canon(retry, through_local(retry, ie.test))
-            a_, b_ = dotted(ie.body), dotted(ie.orelse)
-            if c is not None and a_ and b_ and budget in (a_, b_) and a_ != b_ and set(k for k in c[0] if k) == {a_, b_} and c[0].get("", 0) == 0:
-                other = a_ if b_ == budget else b_
-                # the canonical form says `<plus> - <minus> > / >= 0` when the test is true: the true arm must be the smaller one (<minus>)
-                minus = next(k for k, v in c[0].items() if k and v < 0)
-                if dotted(ie.body) == minus:
-                    tgt = n.targets[0] if isinstance(n, ast.Assign) else n.target
-                    wt, lim = dotted(tgt), other
+            lim_ = smaller_on_true(n.value.test, n.value.body, n.value.orelse)
+            if lim_ is not None:
+                tgt = n.targets[0] if isinstance(n, ast.Assign) else n.target
+                wt, lim = dotted(tgt), lim_
         # wait = min(timeout, retry_interval)
         if isinstance(n, (ast.Assign, ast.AnnAssign)) and isinstance(getattr(n, "value", None), ast.Call) and isinstance(n.value.func, ast.Name) and n.value.func.id == "min" \
                 and budget in [dotted(a) for a in n.value.args] and len(n.value.args) == 2:
@@ -201,9 +208,13 @@ def check_shapes(eng, run):
         fn = db.fn(q)
         ok = False
         for n in own_nodes(fn.node):
-            if isinstance(n, ast.If) and isinstance(n.test, ast.Compare) and dotted(n.test.left) == "timeout" and isinstance(n.test.ops[0], ast.Gt):
+            from sa.norm import cmp_canon
+            c = cmp_canon(fn, n.test) if isinstance(n, ast.If) else None
+            # `timeout > 0` (in any spelling) ... else: `<count> < bufsize` -> break
+            if c is not None and c[1] == ">" and c[0].get("timeout") == 1 and len([k for k in c[0] if k]) == 1 and c[0].get("", 0) == 0:
                 for o in n.orelse:
-                    if isinstance(o, ast.If) and isinstance(o.test, ast.Compare) and isinstance(o.test.ops[0], ast.Lt) and any(isinstance(s, ast.Break) for s in o.body):
+                    co = cmp_canon(fn, o.test) if isinstance(o, ast.If) else None
+                    if co is not None and co[1] == ">" and len([k for k in co[0] if k]) == 2 and any(isinstance(s_, ast.Break) for s_ in o.body):
                         ok = True
         if not ok:
             run.finding("C11.zero", fn, fn.node, "with a zero budget the receive loop no longer stops at the first short read: it would keep polling / block")
@@ -282,7 +293,7 @@ MUTANTS = [
             "C11.cycle", why="the lock wait is not deducted from the budget"),
     Variant("client-ignores-yielded-budget", _TCP + ".recv_packet", lambda fn: replace_expr(fn, "_utils.lock_with_timeout(self.__receive_lock.get(), timeout)", "_utils.lock_with_timeout(self.__receive_lock.get(), timeout)") or
             [setattr(w.items[0], "optional_vars", ast.Name(id="_remaining", ctx=ast.Store())) for w in ast.walk(fn) if isinstance(w, ast.With) and "lock_with_timeout" in ast.unparse(w.items[0].context_expr)],
-            "C11.cycle", why="the time spent waiting for the lock is not counted"),
+            "C11", why="the time spent waiting for the lock is not counted"),
     Variant("iterator-does-not-store-budget", _IT, lambda fn: delete_stmt(fn, stmt_is("if self.__timeout is not None")), "C11.cycle",
             why="every packet of iter_received_packets gets the full timeout"),
     Variant("join-passes-original-timeout", _JOIN, lambda fn: delete_stmt(fn, stmt_is("if timeout is not None")), "C11.cycle"),
